@@ -202,10 +202,14 @@ func (t *TransactionIndexer) hashQuery(condition query.Condition) (res []*types.
 		return nil, 0, errors.Wrap(err, "error during searching for a hash in the query")
 	}
 	result, err := t.Get(hash)
-	if err == nil {
-		total = 1
+	if err != nil {
+		return nil, 0, err
 	}
-	return []*types.TxResult{result}, total, err
+	// Get returns (nil, nil) for a hash that is not indexed: no match, not a match without content
+	if result == nil {
+		return []*types.TxResult{}, 0, nil
+	}
+	return []*types.TxResult{result}, 1, nil
 }
 
 func (t *TransactionIndexer) heightQuery(condition query.Condition, pagination *query.Page) (res []*types.TxResult, total int, err error) {
